@@ -51,6 +51,29 @@ def r1_two_phase(ctx):
         if not computes or not writes:
             ctx.violation("C04.R1", f, f.node, "update_parameters does not (compute updates and then) assign them", construct="def update_parameters")
             continue
+        # evaluation order == textual order only for eager code: a generator expression / lambda / map defers the call to the moment it
+        # is consumed (possibly inside the assignment loop)
+        parents = {}
+        for p_ in ast.walk(f.node):
+            for ch in ast.iter_child_nodes(p_):
+                parents[ch] = p_
+        EAGER = {"dict", "list", "tuple", "sorted", "set", "frozenset", "OrderedDict", "collections.OrderedDict"}
+        for cn, cx in computes:
+            x, lazy = cx, None
+            while x in parents and parents[x] is not f.node:
+                par = parents[x]
+                if isinstance(par, ast.Lambda):
+                    lazy = par
+                    break
+                if isinstance(par, ast.GeneratorExp):
+                    consumer = parents.get(par)
+                    if not (isinstance(consumer, ast.Call) and U(consumer.func) in EAGER and par in consumer.args):
+                        lazy = par
+                        break
+                x = par
+            ctx.check(lazy is None, "C04.R1", f, cx, "the update is computed eagerly (not inside a generator / lambda)",
+                      f"`compute_update` sits in a lazily evaluated `{type(lazy).__name__ if lazy is not None else ''}`: it runs only when the result is consumed - i.e. between the state writes of the "
+                      "assignment loop - so later parameters are computed from already-updated ones", construct="eager computation of the updates")
         for cn, cx in computes:
             after_write = [w for w in writes if cfg.reachable(w, cn)]
             ctx.check(not after_write, "C04.R1", f, cx, "no state write can precede this computation",
@@ -343,6 +366,8 @@ GAU = "src/leaspy/models/obs_models/_gaussian.py"
 SP = "src/leaspy/variables/specs.py"
 FITF = "src/leaspy/algo/fit/mcmc_saem.py"
 VARIANTS = [
+    V("lazy-updates", M, "        for mp, mp_updated_val in params_updates.items():\n", "        params_updates = ((k, v.compute_update(state=state, suff_stats=sufficient_statistics, burn_in=burn_in)) for k, v in state.dag.sorted_variables_by_type[ModelParameter].items())\n        for mp, mp_updated_val in params_updates:\n", "C04.R1"),
+    V("silent-updates-dict-of-generator", M, "        for mp, mp_updated_val in params_updates.items():\n", "        params_updates = dict((k, v.compute_update(state=state, suff_stats=sufficient_statistics, burn_in=burn_in)) for k, v in state.dag.sorted_variables_by_type[ModelParameter].items())\n        for mp, mp_updated_val in params_updates.items():\n", None),
     V("one-phase", M, """            params_updates[mp_name] = mp_var.compute_update(
                 state=state, suff_stats=sufficient_statistics, burn_in=burn_in
             )
